@@ -340,6 +340,7 @@ func (p c17) Exec(t *core.Trace) *core.Result {
 	}
 	squashfs.DsimLockHook = s.Lock
 	squashfs.DsimUnlockHook = s.Unlock
+	squashfs.DsimPointHook = s.Yield // behind every call into the shared (de)compressor
 	d.Yield = s.Yield
 	lockWaits := 0
 	if !raceBuild {
@@ -363,7 +364,7 @@ func (p c17) Exec(t *core.Trace) *core.Result {
 		s.Abort() // unfinished tasks exit at their parking point
 	}
 	wg.Wait() // happens-before edge from every task's end to the checks below
-	squashfs.DsimLockHook, squashfs.DsimUnlockHook, d.Yield = nil, nil, nil
+	squashfs.DsimLockHook, squashfs.DsimUnlockHook, squashfs.DsimPointHook, d.Yield = nil, nil, nil, nil
 	_ = lockWaits
 	if s.LockWaits > 0 {
 		res.ProbeN("lock-wait", int64(s.LockWaits))
